@@ -7,7 +7,7 @@ import common, gen, runner, trace, modelcheck, engine, extsolve
 
 THEOREMS = ["Osmt.Properties.C29_unsat_certified", "Osmt.Properties.C29_sat_certified", "Osmt.Smt.unsat_sound"]
 KINDS = ["dl-sum", "dl-coeff", "dl-three", "dl-single", "nonlinear", "int-in-lra", "real-in-lia", "mixed", "uf-arith", "div-mod-real",
-         "nonlinear-many", "uf-in-arith"]
+         "nonlinear-many", "uf-in-arith", "dl-late", "dl-late"]
 
 
 def N(k, real=False):
@@ -19,6 +19,25 @@ def make_case(idx, seed):
     rng = random.Random(f"c29-{seed}-{idx}")
     kind = KINDS[idx % len(KINDS)]
     real = False
+    if kind == "dl-late":
+        # a difference logic, a scaled variable whose factor exists as a term before the variable is declared
+        logic = rng.choice(["QF_IDL", "QF_RDL", "QF_UFIDL"]); real = logic == "QF_RDL"
+        S = "Real" if real else "Int"
+        k = rng.choice([2, 3, 5])
+        op = rng.choice(["<=", "<", ">=", ">"])
+        lines = ["(set-option :print-success true)", "(set-option :produce-models true)", f"(set-logic {logic})", f"(declare-fun x () {S})",
+                 "(declare-fun b () Bool)", f"(assert (or b ({rng.choice(['>=', '<='])} x {N(-k, real)})))"]
+        if rng.random() < 0.6:
+            lines.append("(check-sat)")
+        lines.append(f"(declare-fun y () {S})")
+        scaled = rng.choice([f"(- x (* {N(k, real)} y))", f"(- (* {N(k, real)} y) x)", f"(+ x (* {N(-k, real)} y))", f"(- y (* {N(k, real)} x))"])
+        lines.append(f"(assert ({op} {scaled} {N(rng.randint(-3, 3), real)}))")
+        for _ in range(rng.randint(1, 4)):
+            v = rng.choice(["x", "y"])
+            lines.append(rng.choice([f"(assert ({rng.choice(['<=', '>=', '<', '>'])} {v} {N(rng.randint(-4, 4), real)}))",
+                                     f"(assert ({rng.choice(['<=', '>='])} (- x y) {N(rng.randint(-4, 4), real)}))"]))
+        lines += ["(check-sat)", "(get-model)"]
+        return {"idx": idx, "logic": logic, "kind": kind, "options": [], "script": "\n".join(lines) + "\n"}
     if kind.startswith("dl-"):
         logic = rng.choice(["QF_IDL", "QF_RDL", "QF_UFIDL"]) if idx % 7 else rng.choice(["QF_IDL", "QF_RDL"])
         real = logic == "QF_RDL"
@@ -100,6 +119,9 @@ def make_case(idx, seed):
                            f"({op} (/ {c()} {a}) {c()})"])
 
     lines = ["(set-option :print-success true)", "(set-option :produce-models true)", f"(set-logic {logic})"] + decls
+    if kind.startswith("dl-") and rng.random() < 0.6:
+        # constants that scaled variables will need exist before the variables do (see the late declarations below)
+        lines.append("(assert (or b " + " ".join(f"(>= x {N(-k, real)})" for k in (2, 3, 5)) + "))")
     depth = 0
     for _ in range(rng.randint(3, 9)):
         r = rng.random()
@@ -118,6 +140,19 @@ def make_case(idx, seed):
         else:
             lines += ["(check-sat)", "(get-model)"]
     lines += ["(check-sat)", "(get-model)"]
+    if rng.random() < (0.8 if kind.startswith("dl-") else 0.5):
+        # late declarations: a symbol is declared right before its first use, after constants and other terms exist already
+        # (normal forms depend on the order in which terms were created)
+        import re as _re
+        late = [d for d in decls if d.startswith("(declare-fun") and d.split()[1] != "x" and rng.random() < 0.6]
+        for d in late:
+            name = d.split()[1]
+            body = [l for l in lines if l != d]
+            first = next((k for k, l in enumerate(body) if l.startswith("(assert") and _re.search(r"(?<![\w.])" + _re.escape(name) + r"(?![\w.])", l)), None)
+            if first is None:
+                continue
+            body.insert(first, d)
+            lines = body
     return {"idx": idx, "logic": logic, "kind": kind, "options": [], "script": "\n".join(lines) + "\n"}
 
 
